@@ -55,6 +55,7 @@ TwoThreads == {1, 2}
 ThreeThreads == {1, 2, 3}
 Budget2 == [t \in {1, 2, 3} |-> 2]
 Budget1 == [t \in {1, 2, 3} |-> 1]
+Budget211 == [t \in {1, 2, 3} |-> IF t = 1 THEN 2 ELSE 1]
 KindsAll == [t \in {1, 2, 3} |-> {"set", "get", "create", "level"}]
 Order3 == << <<>>, <<nA>>, <<nA, nB>> >>
 Order1 == << <<>> >>
